@@ -139,8 +139,13 @@ def check(pid, tier):
             if lines:
                 cases.append(lines); ncorpus += 1
     gen_stats = {}
+    gen_errors = {}
     for g in P.gens:
-        cs = g(rng, tier)
+        try:
+            cs = g(rng, tier)
+        except Exception as ex:      # a broken generator must not take the whole check down
+            gen_errors[g.__name__] = repr(ex)[:300]
+            cs = []
         gen_stats[g.__name__] = len(cs)
         cases += cs
     model_bin = os.path.join(build.LEAN, ".lake", "build", "bin", "model")
@@ -186,7 +191,7 @@ def check(pid, tier):
     cov["correspondence"] = {
         "evaluations": nops, "distinct_nontrivial": len(distinct), "corpus_cases": ncorpus,
         "rule": "cases from the seeded generators %s plus corpus; non-trivial = the implementation returned a non-empty, non-error answer; distinct = distinct (image, operation line) pairs" % list(gen_stats),
-        "generated": gen_stats, "outcomes": hist, "disagreements": len(disagreements),
+        "generated": gen_stats, "generator_errors": gen_errors, "outcomes": hist, "disagreements": len(disagreements),
     }
     cov["evaluations"] = nops
     cov["distinct_nontrivial"] = len(distinct)
@@ -212,9 +217,9 @@ def check(pid, tier):
     for ci, oi, j in disagreements[:3]:
         case = cases[ci]
         ctx = []
-        for j in range(oi - 1, -1, -1):
-            if case[j].startswith("img "):
-                ctx = [case[j]] + [l for l in case[j + 1:oi] if l.startswith("img_to_")]
+        for q in range(oi - 1, -1, -1):
+            if case[q].startswith("img "):
+                ctx = [case[q]] + [l for l in case[q + 1:oi] if l.startswith("img_to_")]
                 break
         lines = ctx + [case[oi]]
         found_input = j["kind"] == "spec" or (P.determined and j.get("hyp") in ("1", None))
